@@ -93,6 +93,19 @@ CLAIMED["C20"] = dict(
     technique="Lean 4 proof over Rat pre-images + differential tie on exact dyadic inputs",
 )
 
+CLAIMED["C14"] = dict(
+    category="proof",
+    text="Codec: load (store p) = p for every path with >= 1 frame (multi-file, reversed frames, energies present or absent, "
+         "orders at six decimals), stored files under the path's own directory. Deletion: invariants over ALL histories of "
+         "the delete_old block (pn_olds FIFO, initial-path guard, lag = n-1 replacements): never deletes a live or "
+         "restart-referenced file, never touches initial paths, exact lag; the delete block does not raise (per block, "
+         "repaired code; the asIs counterexample is kept). Tie: real PathStorage.output + load_path on generated paths with "
+         "real files, and the real treat_output with a real store through exhaustive-small and random histories for every "
+         "settings combination, comparing the load/ listing after every call.",
+    design_ref="DESIGN.md §6 C14",
+    technique="Lean 4 proof (token-level codec round trip; deletion invariants by induction over histories) + differential tie",
+)
+
 NOT_YET = "check not built yet at this commit (work in progress; see DESIGN.md §8 work order)"
 
 
